@@ -174,7 +174,7 @@ impl InlineCache {
 
         #[cfg(boa_verif)]
         if let Some((_, slot)) = &result {
-            if slot.attributes.contains(crate::object::shape::slot::SlotAttributes::PROTOTYPE) {
+            if slot.attributes.contains(SlotAttributes::PROTOTYPE) {
                 crate::verif::ic_stat(|s| s.hits_prototype += 1);
             } else {
                 crate::verif::ic_stat(|s| s.hits_own += 1);
